@@ -18,29 +18,30 @@ variable {K : Type} [Field K] [LinearOrder K] [IsStrictOrderedRing K] [FloorRing
     that pass returns `s_k` -/
 theorem button_passes_spec (b : Button) (sig : List Bool) :
     b.passes sig = List.zipWith (fun prev s => (s && !prev, s)) (b.prev :: sig) sig := by
-  sorry
+  exact Lemmas.C15.passes_spec b sig
 
 /-- never while held, on release or at start-up: with the setup sample `s0`, the handler runs in pass k exactly
     on a released-to-pressed transition of the sampled signal `s0, s1, …` -/
 theorem clicks_eq_rising_edges (s0 : Bool) (sig : List Bool) :
     (Button.setupSample s0).clickCount sig = Host.risingEdges s0 sig := by
-  sorry
+  exact Lemmas.C15.clickCount_eq_risingEdges (Button.setupSample s0) sig
 
 /-- a button held at power-up does not click in the first pass -/
 theorem no_startup_click (sig : List Bool) :
     ((Button.setupSample true).passes (true :: sig)).head? = some (false, true) := by
-  sorry
+  simp [Button.passes, Button.poll, Button.setupSample]
 
 /-- the host-side Button produces the same click count whenever the signal starts released -/
 theorem host_agrees (sig : List Bool) :
     Host.Button.clicks {} sig = (Button.setupSample false).clickCount sig := by
-  sorry
+  rw [Lemmas.C15.hostClicks_eq_risingEdges, Lemmas.C15.clickCount_eq_risingEdges]
+  rfl
 
 /-- without the setup sample (a Button declared inside the main loop body) the start-up guarantee fails:
     known finding K15a -/
 theorem loop_declared_startup_click_counterexample :
     (({} : Button).passes [true]).head? = some (true, true) := by
-  sorry
+  decide
 
 /-! ### Ultrasonic -/
 
@@ -56,11 +57,15 @@ def Spaced : Nat → List UEv → Prop
 /-- at most three attempts -/
 theorem ultra_attempts_le_three (u : Ultra K) (now : Nat) (es ds : List Nat) :
     (pulses (Ultra.measure u now es ds).evs).length ≤ 3 ∧ 1 ≤ (pulses (Ultra.measure u now es ds).evs).length := by
-  sorry
+  have h := Lemmas.C15.run_pulses_length 3 u now es ds
+  rw [Lemmas.C15.measure_eq_run]
+  exact ⟨h.1, h.2 (by decide)⟩
 
 /-- echo-time · 0.0343 / 2 -/
 theorem distance_formula (d : Nat) : (Ultra.distanceOf d : K) = (d : K) * (343 / 10000) / 2 := by
-  sorry
+  simp only [Ultra.distanceOf, lit, ofInt_eq, Int.ofNat_eq_natCast]
+  push_cast
+  ring
 
 /-- the result is the distance of the first non-zero echo among at most three attempts; after three time-outs
     the last good reading, 400 cm if there is none -/
@@ -71,7 +76,11 @@ theorem ultra_value (u : Ultra K) (now : Nat) (es ds : List Nat) :
                 (Ultra.measure u now es ds).st.has = true ∧ (Ultra.measure u now es ds).st.lastDistance = Ultra.distanceOf d
     | none => (Ultra.measure u now es ds).result = (if u.has then u.lastDistance else 400) ∧
               (Ultra.measure u now es ds).st.has = u.has ∧ (Ultra.measure u now es ds).st.lastDistance = u.lastDistance := by
-  sorry
+  have h := Lemmas.C15.run_value 3 u now es ds
+  rw [← Lemmas.C15.firstPos_three, ← Lemmas.C15.measure_eq_run] at h
+  have e : (Num.ofInt 400 : K) = 400 := by simp only [ofInt_eq, Int.cast_ofNat]
+  rw [e] at h
+  exact h
 
 /-- never two trigger pulses within 60 ms once the clock is running — for every clock behaviour; and the
     invariant needed to chain calls (the stamp is in the past, the clock never goes back) is re-established -/
@@ -79,15 +88,26 @@ theorem ultra_spacing (u : Ultra K) (now : Nat) (es ds : List Nat) (hpast : u.la
     Spaced u.lastTrigger (Ultra.measure u now es ds).evs ∧
     (Ultra.measure u now es ds).st.lastTrigger ≤ (Ultra.measure u now es ds).now ∧
     now ≤ (Ultra.measure u now es ds).now := by
-  sorry
+  have hS : ∀ (l : List UEv) (last : Nat), Spaced last l ↔ Lemmas.C15.Spaced' last l := by
+    intro l
+    induction l with
+    | nil => intro last; simp [Spaced, Lemmas.C15.Spaced']
+    | cons e l ih => intro last; cases e <;> simp [Spaced, Lemmas.C15.Spaced', ih]
+  have h := Lemmas.C15.run_spacing 3 u now es ds hpast
+  rw [← Lemmas.C15.measure_eq_run] at h
+  exact ⟨(hS _ _).2 h.1, h.2⟩
 
 /-- consequence for trigger pulses themselves: consecutive pulses of one call are ≥ 60 ms apart whenever the
     clock was running (non-zero) at the stamp between them -/
 theorem ultra_pulse_gap (u : Ultra K) (now : Nat) (es ds : List Nat) (hpast : u.lastTrigger ≤ now) (hrun : 0 < now) :
     List.Pairwise (fun a b => a + 60 ≤ b) (pulses (Ultra.measure u now es ds).evs) := by
-  sorry
+  have h := (Lemmas.C15.run_pulse_gap 3 u now es ds hpast hrun).2
+  rw [← Lemmas.C15.measure_eq_run] at h
+  exact h
 
 example : (Ultra.measure (Ultra.init : Ultra K) 0 [0, 0, 583] [5, 5, 5, 5, 5, 5, 5, 5, 5]).result = Ultra.distanceOf 583 := by
-  sorry
+  have h := Lemmas.C15.run_value 3 (Ultra.init : Ultra K) 0 [0, 0, 583] [5, 5, 5, 5, 5, 5, 5, 5, 5]
+  rw [← Lemmas.C15.measure_eq_run] at h
+  simpa [Lemmas.C15.firstPos] using h.1
 
 end Reduino.Props.C15
